@@ -143,8 +143,11 @@ class UnitOfWork(object):
         """
         for obj in session.deleted:
             if is_versioned(obj):
-                for prop in versioned_column_properties(obj):
-                    getattr(obj, prop.key)
+                self.load_versioned_attributes(obj)
+
+    def load_versioned_attributes(self, obj):
+        for prop in versioned_column_properties(obj):
+            getattr(obj, prop.key)
 
     def process_after_flush(self, session):
         """
